@@ -157,9 +157,11 @@ any other after its own TTL -/
 theorem cacheFlushTtl_model :
     let r (flush : Bool) : RR := { name := [[97]], cls := .IN, ttl := 4500, rdata := .flat 1 [.int 7], flush := flush }
     (Mdns.Store.empty.addCached (r true) 5).entries =
-      [(Mdns.getKey [[97]], [(r true, .cached (5 + Gen.ttlUnitMillis * Gen.cacheFlushTtl))])] ∧
+      [(Mdns.getKey [[97]], [(r true, .cached (5 + Gen.ttlUnitMillis * Gen.cacheFlushTtl)
+          (5 + Gen.ttlUnitMillis * Mdns.refreshOffsetSecs Gen.cacheFlushTtl))])] ∧
     (Mdns.Store.empty.addCached (r false) 5).entries =
-      [(Mdns.getKey [[97]], [(r false, .cached (5 + Gen.ttlUnitMillis * 4500))])] := by decide
+      [(Mdns.getKey [[97]], [(r false, .cached (5 + Gen.ttlUnitMillis * 4500)
+          (5 + Gen.ttlUnitMillis * Mdns.refreshOffsetSecs 4500))])] := by decide
 
 /-! ### 6. enum tables (`enum X { V = n }`, `impl From<u16>/TryFrom<u16> for X`) -/
 
